@@ -10,3 +10,4 @@ def run(ck):
     filt.r4_kernel_table(ck, P)
     filt.r_axis_consistency(ck, P, 'C18-R5')
     filt.r6_acceptance_domain(ck, P)
+    filt.r8_coefficient_product_width(ck, P, 'C18-R8')
